@@ -9,6 +9,7 @@ mod oracle;
 mod props_algo;
 mod props_model;
 mod props_path;
+mod props_xml;
 mod rng;
 
 use ctx::Args;
@@ -75,6 +76,8 @@ fn main() {
         "C12" => props_algo::run_c12(&a),
         "C13" => props_algo::run_c13(&a),
         "C18" => props_algo::run_c18(&a),
+        "C14" => props_xml::run_c14(&a),
+        "C19" => props_xml::run_c19(&a),
         "C15" => props_model::run_c15(&a),
         other => {
             eprintln!("unknown property {}", other);
